@@ -320,7 +320,8 @@ TASKS = {"random": task_random, "lattice": task_lattice, "params": task_params}
 
 def plan(tier, seed):
     t = [("lattice", dict(cdtype=c)) for c in ("complex64", "complex128")]
-    n, reps, nsh = (120000, 1, 4) if tier == "quick" else (400000, 8, 8)
+    # the interpreter keeps every intermediate of the expanded graphs alive: ~3000 nodes x 16 bytes x n per run, so n stays near 10^5 and depth comes from reps
+    n, reps, nsh = (120000, 1, 4) if tier == "quick" else (100000, 32, 8)
     for d in ("float32", "float64"):
         t.append(("params", dict(dtype=d, seed=seed, n=100000 if tier == "quick" else 2000000)))
     for c in ("complex64", "complex128"):
